@@ -165,6 +165,19 @@ CLAIMED["C20"] = dict(
          "kernel behaviour of epoll/select and real time are outside the model (logical clock, 10 ms units with overrun detection); single-threaded; callback always continues.",
     technique="Lean 4 proof (inductive invariant reactor list = guards, deadline indices = guards; exact dispatch by case analysis) + differential correspondence model vs implementation",
     design="DESIGN.md §5 C20, notes/C20-design.md")
+CLAIMED["C08"] = dict(
+    level="proof",
+    text="Lean 4 theorems over the L1 publish-subscribe model for EVERY reachable state of EVERY sane configuration: a loan is never refused for lack of memory (the closed formula "
+         "max_subscribers*(buffer+borrowed)+history+loans covers every reachable distribution of samples) and the exhaustion probe is always stopped by the loan limit; a loan succeeds "
+         "iff fewer than max_loaned_samples loans are out, a refused loan changes nothing; the completion queue never fills (sub+borrow+comp <= cap+max_borrowed), so a release always "
+         "returns the chunk; creating a publisher/subscriber succeeds iff a registry slot is free and a refused creation leaves the world exactly as it was; registries never exceed the "
+         "limits; no API call panics as long as the application holds at most max_borrowed samples per subscriber. Without that discipline a fatal panic is reachable and the borrow limit "
+         "is per connection, not per subscriber: both machine-checked with concrete histories (known findings D19/D20).",
+    note="Trusted: Lean kernel + 3 standard axioms; hand-written L1 model (tie = differential run of the real ports: exhaustive short histories, random, saturation histories that keep buffers, "
+         "borrows, history and loans full; oracles on the implementation alone: OOM, panic, per-subscriber borrow count). Publish-subscribe only: request-response limits are exercised by C11, "
+         "event/blackboard limits are not covered.",
+    technique="Lean 4 proof (five-part inductive invariant: registries, connections, publisher memory accounting, subscriber storage) + differential correspondence model vs implementation",
+    design="DESIGN.md §5 C08")
 NOT_YET = {}
 
 def main():
